@@ -82,15 +82,28 @@ def step (_ : Unit) (ts : List String) : Unit × String :=
         | some c => (if c.parent == none then "R+" else "R!") ++ dumpNode c ++ " t=" ++ hex c.textOf
         | none => "null"
       | _, _ => "bad-op"
-    | ["mut", h, k, j, _how] => match unhex h, k.toNat?, j.toNat? with
-      | some d, some k, some j =>
+    | ["mut", h, k, j, how] =>
+      let m : Option Mutator := match how with
+        | "remove" => some .remove | "removee" => some .removeE | "clear" => some .clear | "put" => some .put
+        | "araw_remove" => some .rawRemove | "araw_clear" => some .rawClear | "araw_resize" => some .rawResize
+        | "araw_assign" => some .rawAssign | _ => none
+      match unhex h, k.toNat?, j.toNat?, m with
+      | some d, some k, some j, some m =>
         let r := decode d
-        if r.isNull then "null" else match pickDetached r k j with
-        -- first flag: parent() right after the mutation; then the survivor once everything else is released
-        | some c => (if c.parent == none then "M+" else "M!") ++ (if (survivor c).parent == none then "R+" else "R!")
-                      ++ dumpNode c ++ " t=" ++ hex c.textOf
-        | none => "skip"
-      | _, _, _ => "bad-op"
+        if r.isNull then "null" else match pickDetached r k j m, (match r with | .node n => some n | _ => none) with
+        | some c, some n =>
+          -- the node before the mutation (for `parentAfterRelease`): same node with its original parent
+          let l := preorder n
+          let orig := match l[k % l.length]? with
+            | some (.elem _ _ _ _ cs) => cs[j % cs.length]?
+            | _ => none
+          -- first flag: parent() right after the mutation; second: once everything else is released
+          let after := match orig with
+            | some o => (match parentAfterRelease m o with | .null => "R+" | .dangling _ => "R~dangling")
+            | none => "R+"
+          (if c.parent == none then "M+" else "M!") ++ after ++ dumpNode c ++ " t=" ++ hex c.textOf
+        | _, _ => "skip"
+      | _, _, _, _ => "bad-op"
     | ["desc", h] => match unhex h with
       | some d =>
         let r := decode d
